@@ -132,8 +132,77 @@ contract(
 )
 
 
+# --- SignatureInfo._append_defaults -----------------------------------------------------
+def _ad_req(c):
+  h = c.old
+  up, pv = c['unset_params'], c['positional_values']
+  i = z3.Int('ad_i')
+  return z3.And(isref(h, up, 'list'), isref(h, pv, 'list'), ref(up) != ref(pv),
+                h.len(ref(up)) >= 0, h.len(ref(pv)) >= 0,
+                FA([i], z3.Implies(z3.And(0 <= i, i < h.len(ref(up))), is_VParam(h.elt(ref(up), i))),
+                   patterns=[h.elt(ref(up), i)]))
+
+
+def _ad_missing(c):
+  """Some skipped parameter has no default."""
+  h = c.old
+  up = ref(c['unset_params'])
+  i = z3.Int('ad_j')
+  p = h.elt(up, i)
+  return z3.Exists([i], z3.And(0 <= i, i < h.len(up), z3.Not(sig_hasdef(psig(p), pidx(p)))))
+
+
+def _ad_post(c):
+  h0, h = c.old, c.heap
+  up, pv = ref(c['unset_params']), ref(c['positional_values'])
+  i = z3.Int('ad_i')
+  p = lambda x: h0.elt(up, x)
+  n0 = h0.len(pv)
+  return z3.And(
+      h.len(up) == 0,
+      h.len(pv) == n0 + h0.len(up),
+      FA([i], z3.Implies(z3.And(0 <= i, i < n0), h.elt(pv, i) == h0.elt(pv, i)),
+         patterns=[h.elt(pv, i)]),
+      FA([i], z3.Implies(z3.And(n0 <= i, i < n0 + h0.len(up)),
+                         h.elt(pv, i) == sig_dflt(psig(p(i - n0)), pidx(p(i - n0)))),
+         patterns=[h.elt(pv, i)]))
+
+
+def _ad_inv(c):
+  h0, h = c.old, c.heap
+  up, pv = ref(c['unset_params']), ref(c['positional_values'])
+  i = z3.Int('ad_i')
+  k = c.k
+  p = lambda x: h0.elt(up, x)
+  n0 = h0.len(pv)
+  return z3.And(
+      0 <= k, k <= h0.len(up),
+      h.len(up) == h0.len(up), h.eltarr(up) == h0.eltarr(up),
+      h.len(pv) == n0 + k,
+      FA([i], z3.Implies(z3.And(0 <= i, i < n0), h.elt(pv, i) == h0.elt(pv, i)),
+         patterns=[h.elt(pv, i)]),
+      FA([i], z3.Implies(z3.And(0 <= i, i < k), sig_hasdef(psig(p(i)), pidx(p(i)))),
+         patterns=[h0.elt(up, i)]),
+      FA([i], z3.Implies(z3.And(n0 <= i, i < n0 + k),
+                         h.elt(pv, i) == sig_dflt(psig(p(i - n0)), pidx(p(i - n0)))),
+         patterns=[h.elt(pv, i)]))
+
+
+contract(
+    'signatures.SignatureInfo._append_defaults', F, 'SignatureInfo._append_defaults',
+    requires=_ad_req, ensures=_ad_post, raises={'TypeError': _ad_missing},
+    mod=lambda c: [ref(c['unset_params']), ref(c['positional_values'])],
+    result='none', allocates=False,
+    loops={0: Loop(_ad_inv, mod=lambda c: [ref(c['positional_values'])], fields=[])},
+    props=('C01',),
+    note='appends the defaults of the skipped parameters in order and clears the list; '
+         'TypeError iff one of them has no default',
+)
+
+
 # --- SignatureInfo.transform_to_args_kwargs ---------------------------------------------
-tak_cnt = z3.Function('tak_cnt', I, HasArr, B, B, I, I)
+# ls(k): one past the last *set* positional slot among the first k parameters
+tak_ls = z3.Function('tak_ls', I, HasArr, I, I, I)
 
 
 def _tak_terms(c):
@@ -146,34 +215,47 @@ def _tak_terms(c):
   return g, has0, val0, P, Nv
 
 
-def tak_inc(g, has0, P, Nv, i):
-  vpset = z3.And(sig_vps(g) >= 0, has0[IK(sig_vps(g))])
-  k = sig_kind(g, i)
-  return z3.And(0 <= i, i < sig_n(g),
-                z3.Or(k == PO, z3.And(k == PK, z3.Or(P, vpset))),
-                z3.Or(isset(g, has0, i), Nv))
+def tak_vpset(g, has0):
+  return z3.And(sig_vps(g) >= 0, has0[IK(sig_vps(g))])
+
+
+def tak_pos_end(g, has0, P):
+  """Positional slots are the parameters [0, pos_end): all PO, and the PK ones if asked for
+  or if *args are present."""
+  return z3.If(z3.Or(P, tak_vpset(g, has0)), sig_npos(g), sig_npo(g))
+
+
+def tak_ls_unfold(g, has0, P, i):
+  pe = tak_pos_end(g, has0, P)
+  ls = lambda x: tak_ls(g, has0, pe, x)
+  return ls(i + 1) == z3.If(z3.And(i < pe, isset(g, has0, i)), i + 1, ls(i))
+
+
+def tak_need_end(g, has0, P, Nv):
+  pe = tak_pos_end(g, has0, P)
+  return z3.If(Nv, pe, z3.If(tak_vpset(g, has0), sig_npos(g), tak_ls(g, has0, pe, sig_n(g))))
 
 
 def tak_consumed(g, has0, P, key, k):
-  vpset = z3.And(sig_vps(g) >= 0, has0[IK(sig_vps(g))])
+  pe = tak_pos_end(g, has0, P)
   i = ival(key)
   si = sig_idx(g, sval(key))
   return z3.Or(
-      z3.And(is_VInt(key), 0 <= i, i < k, sig_kind(g, i) == PO),
-      z3.And(is_VStr(key), 0 <= si, si < k, sig_kind(g, si) == PK, z3.Or(P, vpset)))
+      z3.And(is_VInt(key), 0 <= i, i < k, i < sig_npo(g)),
+      z3.And(is_VStr(key), 0 <= si, si < k, sig_npo(g) <= si, si < pe))
 
 
-def tak_valof(g, has0, val0, i):
-  return z3.If(isset(g, has0, i), val0[poskey(g, i)], default_or(g, i, NO_VALUE))
+def tak_valof(g, has0, val0, Nv, i):
+  return z3.If(isset(g, has0, i), val0[poskey(g, i)],
+               z3.If(Nv, default_or(g, i, NO_VALUE), sig_dflt(g, i)))
 
 
-def tak_cnt_def(g, has0, P, Nv):
-  i = z3.Int('tc_i')
-  cnt = lambda x: tak_cnt(g, has0, P, Nv, x)
-  return z3.And(
-      cnt(z3.IntVal(0)) == 0,
-      FA([i], z3.Implies(i >= 0, cnt(i + 1) == cnt(i) + z3.If(tak_inc(g, has0, P, Nv, i), 1, 0)),
-                patterns=[cnt(i + 1)]))
+def tak_missing(g, has0, P, Nv):
+  """Build mode: a slot that must be passed by position has neither value nor default."""
+  i = z3.Int('tm_i')
+  return z3.And(z3.Not(Nv), z3.Exists([i], z3.And(
+      0 <= i, i < tak_need_end(g, has0, P, Nv), z3.Not(isset(g, has0, i)),
+      z3.Not(sig_hasdef(g, i)))))
 
 
 def _tak_req(c):
@@ -183,55 +265,86 @@ def _tak_req(c):
                 is_VBool(c['include_pos_or_kw_in_args']), is_VBool(c['include_no_value']))
 
 
-def _tak_defs(c):
+def _tak_recdefs(c):
   g, has0, val0, P, Nv = _tak_terms(c)
-  return tak_cnt_def(g, has0, P, Nv)
+  pe = tak_pos_end(g, has0, P)
+  return {'ls': (tak_ls(g, has0, pe, z3.IntVal(0)) == 0, lambda i: tak_ls_unfold(g, has0, P, i))}
 
 
 def _tak_lemmas(c):
   g, has0, val0, P, Nv = _tak_terms(c)
-  cnt = lambda x: tak_cnt(g, has0, P, Nv, x)
+  pe = tak_pos_end(g, has0, P)
+  ls = lambda x: tak_ls(g, has0, pe, x)
   j = z3.Int('tl_j')
-  # cnt is monotone and bounded by the index
-  mono, mono_steps = induction(lambda i: z3.And(cnt(i) >= 0, cnt(i) <= i, cnt(i) <= cnt(i + 1)))
-  ii = z3.Int('tl_ii')
-  mono2, mono2_steps = induction(
-      lambda jx: FA([ii], z3.Implies(z3.And(0 <= ii, ii <= jx), cnt(ii) <= cnt(jx)),
-                    patterns=[z3.MultiPattern(cnt(ii), cnt(jx))]))
-  # all parameters beyond npos contribute nothing
-  tail, tail_steps = induction(lambda i: z3.Implies(i >= sig_npos(g), cnt(i) == cnt(sig_npos(g))))
-  # with both flags on every positional slot is included: cnt(i) = i up to npos
-  ident, ident_steps = induction(
-      lambda i: z3.Implies(z3.And(P, Nv, i <= sig_npos(g)), cnt(i) == i),
-      pats=lambda i: [cnt(i), sig_kind(g, i)])
-  return [('cnt_mono', mono, mono_steps), ('cnt_mono2', mono2, mono2_steps), ('cnt_tail', tail, tail_steps),
-          ('cnt_ident', ident, ident_steps)]
+  mn = lambda x: z3.If(x < pe, x, pe)
+  # 0 <= ls(k) <= min(k, pos_end); everything in [ls(k), min(k, pos_end)) is unset;
+  # ls(k) = 0 or slot ls(k)-1 is set
+  bounds = lambda k: z3.And(
+      0 <= ls(k), ls(k) <= mn(k),
+      z3.Or(ls(k) == 0, isset(g, has0, ls(k) - 1)),
+      FA([j], z3.Implies(z3.And(ls(k) <= j, j < mn(k)), z3.Not(isset(g, has0, j)))))
+  # beyond pos_end nothing changes
+  tail = lambda k: z3.Implies(k >= pe, ls(k) == ls(pe))
+  return [('ls_bounds', bounds, 0, ['ls']), ('ls_tail', tail, 0, ['ls'])]
+
+
+def _tak_loop0_facts(c):
+  k = c.k
+  return [('unfold', 'ls', k), ('lemma', 'ls_bounds', k), ('lemma', 'ls_bounds', k + 1)]
+
+
+def _tak_exit_facts(c):
+  g = sig_of(c.old, ref(c['self']))
+  n = sig_n(g)
+  return [('lemma', 'ls_bounds', n), ('lemma', 'ls_tail', n)]
+
+
+def _tak_common_inv(c, a, pv, pl=None, up=None):
+  h = c.heap
+  refs = [x for x in (a, pv, pl, up) if x is not None]
+  conj = []
+  for x in refs:
+    conj += [x >= c.old.alloc, x < h.alloc]
+  for i1 in range(len(refs)):
+    for i2 in range(i1 + 1, len(refs)):
+      conj.append(refs[i1] != refs[i2])
+  return conj
 
 
 def _tak_inv1(c):
   g, has0, val0, P, Nv = _tak_terms(c)
   h = c.heap
   k = c.k
-  a, pv, pl = ref(c.v('arguments')), ref(c.v('positional_values')), ref(c.v('parameters'))
+  a, pv, pl, up = (ref(c.v('arguments')), ref(c.v('positional_values')), ref(c.v('parameters')),
+                   ref(c.v('unset_params')))
   key = z3.Const('ti_key', Val)
   i = z3.Int('ti_i')
-  cnt = lambda x: tak_cnt(g, has0, P, Nv, x)
+  pe = tak_pos_end(g, has0, P)
+  ls = tak_ls(g, has0, pe, k)
+  ke = z3.If(k < pe, k, pe)
+  filled = z3.If(Nv, ke, ls)        # slots already in positional_values
   return z3.And(
       0 <= k, k <= sig_n(g),
       is_VRef(c.v('arguments')), is_VRef(c.v('positional_values')), is_VRef(c.v('parameters')),
-      a >= c.old.alloc, pv >= c.old.alloc, pl >= c.old.alloc, a != pv, a != pl, pv != pl,
-      a < h.alloc, pv < h.alloc, pl < h.alloc,
+      is_VRef(c.v('unset_params')),
+      *_tak_common_inv(c, a, pv, pl, up),
       cls_is(h.cls(a), 'dict'), cls_is(h.cls(pv), 'list'), cls_is(h.cls(pl), 'list'),
+      cls_is(h.cls(up), 'list'),
       h.len(pl) == sig_n(g),
       FA([i], z3.Implies(z3.And(0 <= i, i < sig_n(g)), h.elt(pl, i) == VParam(g, i)),
-                patterns=[h.elt(pl, i)]),
+         patterns=[h.elt(pl, i)]),
       FA([key], h.has(a, key) == z3.And(has0[key], z3.Not(tak_consumed(g, has0, P, key, k))),
-                patterns=[h.has(a, key)]),
+         patterns=[h.has(a, key)]),
       h.valarr(a) == val0,
-      h.len(pv) == cnt(k),
-      FA([i], z3.Implies(z3.And(0 <= i, i < k, tak_inc(g, has0, P, Nv, i)),
-                                h.elt(pv, cnt(i)) == tak_valof(g, has0, val0, i)),
-                patterns=[h.elt(pv, cnt(i)), sig_kind(g, i)]))
+      h.len(pv) == filled,
+      FA([i], z3.Implies(z3.And(0 <= i, i < filled),
+                         z3.And(h.elt(pv, i) == tak_valof(g, has0, val0, Nv, i),
+                                z3.Or(Nv, isset(g, has0, i), sig_hasdef(g, i)))),
+         patterns=[h.elt(pv, i)]),
+      # the skipped (unset) slots, in order
+      h.len(up) == z3.If(Nv, 0, ke - ls),
+      FA([i], z3.Implies(z3.And(0 <= i, i < h.len(up)), h.elt(up, i) == VParam(g, ls + i)),
+         patterns=[h.elt(up, i)]))
 
 
 def _tak_inv2(c):
@@ -243,24 +356,26 @@ def _tak_inv2(c):
   i, j = z3.Ints('ti_i ti_j')
   n = sig_n(g)
   vps = sig_vps(g)
-  cnt = lambda x: tak_cnt(g, has0, P, Nv, x)
+  ne = tak_need_end(g, has0, P, Nv)
   return z3.And(
       m >= 0, vps >= 0, c.v('index') == VInt(vps + m), m <= store_nvar(g, has0),
+      z3.Or(m == 0, tak_vpset(g, has0)),
       is_VRef(c.v('arguments')), is_VRef(c.v('positional_values')),
-      a >= c.old.alloc, pv >= c.old.alloc, a != pv, a < h.alloc, pv < h.alloc,
+      *_tak_common_inv(c, a, pv),
       cls_is(h.cls(a), 'dict'), cls_is(h.cls(pv), 'list'),
       FA([key], h.has(a, key) == z3.And(
           has0[key], z3.Not(tak_consumed(g, has0, P, key, n)),
           z3.Not(z3.And(is_VInt(key), vps <= ival(key), ival(key) < vps + m))),
-                patterns=[h.has(a, key)]),
+         patterns=[h.has(a, key)]),
       h.valarr(a) == val0,
-      h.len(pv) == cnt(n) + m,
-      FA([i], z3.Implies(z3.And(0 <= i, i < n, tak_inc(g, has0, P, Nv, i)),
-                                h.elt(pv, cnt(i)) == tak_valof(g, has0, val0, i)),
-                patterns=[h.elt(pv, cnt(i)), sig_kind(g, i)]),
-      FA([j], z3.Implies(z3.And(vps <= j, j < vps + m),
-                         z3.And(has0[IK(j)], h.elt(pv, cnt(n) + j - vps) == val0[IK(j)])),
-         patterns=[has0[IK(j)], val0[IK(j)]]))
+      h.len(pv) == ne + m,
+      FA([i], z3.Implies(z3.And(0 <= i, i < ne),
+                         z3.And(h.elt(pv, i) == tak_valof(g, has0, val0, Nv, i),
+                                z3.Or(Nv, isset(g, has0, i), sig_hasdef(g, i)))),
+         patterns=[h.elt(pv, i)]),
+      FA([j], z3.Implies(z3.And(vps <= j, j < vps + m), has0[IK(j)]), patterns=[has0[IK(j)]]),
+      FA([j], z3.Implies(z3.And(ne <= j, j < ne + m), h.elt(pv, j) == val0[IK(j - ne + vps)]),
+         patterns=[h.elt(pv, j)]))
 
 
 def TakPost(c, g, has0, val0, P, Nv, L, K):
@@ -273,27 +388,31 @@ def TakPost(c, g, has0, val0, P, Nv, L, K):
   npos = sig_npos(g)
   nvar = store_nvar(g, has0)
   vps = sig_vps(g)
-  cnt = lambda x: tak_cnt(g, has0, P, Nv, x)
+  ne = tak_need_end(g, has0, P, Nv)
   return z3.And(
       is_VRef(L), is_VRef(K), l >= c.old.alloc, kd >= c.old.alloc, l != kd,
       cls_is(h.cls(l), 'list'), cls_is(h.cls(kd), 'dict'),
-      h.len(l) == cnt(npos) + nvar,
-      FA([i], z3.Implies(z3.And(0 <= i, i < npos, tak_inc(g, has0, P, Nv, i)),
-                                h.elt(l, cnt(i)) == tak_valof(g, has0, val0, i)),
-                patterns=[h.elt(l, cnt(i)), sig_kind(g, i)]),
-      FA([j], z3.Implies(z3.And(vps <= j, j < vps + nvar),
-                         h.elt(l, cnt(npos) + j - vps) == val0[IK(j)])),
+      0 <= ne, ne <= npos,
+      h.len(l) == ne + nvar,
+      # slot i is bound by position i: its stored value, else its default
+      FA([i], z3.Implies(z3.And(0 <= i, i < ne), h.elt(l, i) == tak_valof(g, has0, val0, Nv, i)),
+         patterns=[h.elt(l, i)]),
+      FA([j], z3.Implies(z3.And(ne <= j, j < ne + nvar), h.elt(l, j) == val0[IK(j - ne + vps)]),
+         patterns=[h.elt(l, j)]),
+      # no positional slot at or beyond need_end carries a value (nothing is dropped)
+      FA([i], z3.Implies(z3.And(ne <= i, i < tak_pos_end(g, has0, P)), z3.Not(isset(g, has0, i)))),
+      z3.Implies(nvar > 0, ne == npos),
       FA([key], h.has(kd, key) == z3.And(
           has0[key], z3.Not(tak_consumed(g, has0, P, key, n)),
           z3.Not(z3.And(is_VInt(key), vps >= 0, vps <= ival(key)))),
-                patterns=[h.has(kd, key)]),
+         patterns=[h.has(kd, key)]),
       h.valarr(kd) == val0,
       # corollary used by every indexing method: with both flags the list is the full view
       z3.Implies(z3.And(P, Nv), z3.And(
           h.len(l) == npos + nvar,
           FA([i], z3.Implies(z3.And(0 <= i, i < npos + nvar),
-                                    h.elt(l, i) == Lf(g, has0, val0, i)),
-                    patterns=[h.elt(l, i)]))))
+                             h.elt(l, i) == Lf(g, has0, val0, i)),
+             patterns=[h.elt(l, i)]))))
 
 
 def _tak_post(c):
@@ -301,17 +420,30 @@ def _tak_post(c):
   return TakPost(c, g, has0, val0, P, Nv, c.res(0), c.res(1))
 
 
+def _tak_raises(c):
+  g, has0, val0, P, Nv = _tak_terms(c)
+  return tak_missing(g, has0, P, Nv)
+
+
 contract(
     'signatures.SignatureInfo.transform_to_args_kwargs', F,
     'SignatureInfo.transform_to_args_kwargs',
     requires=_tak_req, ensures=_tak_post, result=('tuple', 2),
-    lemmas=_tak_lemmas, defs=_tak_defs,
-    loops={0: Loop(_tak_inv1, mod=lambda c: [ref(c.v('arguments')), ref(c.v('positional_values'))],
-                   fields=[]),
+    raises={'TypeError': _tak_raises},
+    lemmas=_tak_lemmas, recdefs=_tak_recdefs, facts=_tak_exit_facts,
+    cases=lambda c: [bval(c['include_no_value']), bval(c['include_pos_or_kw_in_args']),
+                     tak_vpset(sig_of(c.old, ref(c['self'])), c.old.hasarr(ref(c['arguments'])))],
+    loops={0: Loop(_tak_inv1, mod=lambda c: [ref(c.v('arguments')), ref(c.v('positional_values')),
+                                             ref(c.v('unset_params'))], fields=[],
+                   facts=_tak_loop0_facts,
+                   pivots=lambda c: [tak_ls(_tak_terms(c)[0], _tak_terms(c)[1],
+                                            tak_pos_end(*[_tak_terms(c)[i] for i in (0, 1, 3)]), c.k),
+                                     c.k]),
            1: Loop(_tak_inv2, mod=lambda c: [ref(c.v('arguments')), ref(c.v('positional_values'))],
-                   fields=[])},
+                   fields=[], facts=_tak_exit_facts)},
     props=('C01', 'C03', 'C04', 'C17'),
-    note='arguments unchanged (frame); (L, K) fresh; contents per Appendix D',
+    note='arguments unchanged (frame); (L, K) fresh; slot i of L is parameter i (value, else default); '
+         'TypeError iff a slot that must be passed by position has neither value nor default',
 )
 
 
